@@ -7,16 +7,32 @@ import (
 	"encoding/json"
 	"fmt"
 	"io"
+	"net/http"
+	"net/http/httptest"
+	"net/url"
 	"os"
 	"os/exec"
 	"path/filepath"
 	"strings"
+	"sync/atomic"
+
+	config_util "github.com/prometheus/common/config"
+	k8sd "github.com/prometheus/prometheus/discovery/kubernetes"
 
 	"kvassverif/internal/cfggen"
 	"kvassverif/internal/core"
+	"kvassverif/internal/e3"
 	"kvassverif/internal/sc"
 	"tkestack.io/kvass/pkg/prom"
+	"tkestack.io/kvass/pkg/shard"
 )
+
+func clipS(s string, n int) string {
+	if len(s) > n {
+		return s[:n] + "..."
+	}
+	return s
+}
 
 func hashOf(text string) (string, error) {
 	m := prom.NewConfigManager()
@@ -708,11 +724,169 @@ func runC16(w *core.WorkerCtx, idx int) *core.CaseResult {
 		}
 		os.RemoveAll(dir)
 	}
+	c16Wired(w, idx, r, spec, res)
 	res.Viol = dedupeV(res.Viol)
 	if idx < 2 {
 		res.Sample = map[string]interface{}{"config": base, "hash": h0}
 	}
 	return res
+}
+
+const saDir = "/var/run/secrets/kubernetes.io/serviceaccount/"
+
+// injectLikeCmd rewrites the parsed configuration in place the way the first reload callback of
+// cmd/kvass (configInject / configInjectSidecar with --inject.kubernetes-sa-path, --inject.kubernetes-url) does.
+func injectLikeCmd(info *prom.ConfigInfo) error {
+	for _, job := range info.Config.ScrapeConfigs {
+		for _, sd := range job.ServiceDiscoveryConfigs {
+			if ksd, ok := sd.(*k8sd.SDConfig); ok && ksd.APIServer.URL == nil {
+				u, _ := url.Parse("https://injected-apiserver.example:6443")
+				ksd.APIServer = config_util.URL{URL: u}
+			}
+		}
+		if job.HTTPClientConfig.BearerTokenFile == saDir+"token" {
+			job.HTTPClientConfig.BearerTokenFile = "/custom/sa/token"
+		}
+		if a := job.HTTPClientConfig.Authorization; a != nil && a.CredentialsFile == saDir+"token" {
+			a.CredentialsFile = "/custom/sa/token"
+		}
+	}
+	return nil
+}
+
+// c16Wired: the hash inside processes wired as cmd/kvass wires them - a reload callback that rewrites
+// the parsed configuration in place runs before everything else - over reloads and extra-config
+// updates (stop-scrape reason set and cleared). The hash must stay the one of the content.
+func c16Wired(w *core.WorkerCtx, idx int, r *core.Rng, spec *cfggen.Spec, res *core.CaseResult) {
+	s2 := clone(spec)
+	// make sure the callback has something to rewrite in half of the cases
+	mode := r.Intn(4)
+	if mode < 2 && len(s2.Jobs) > 0 {
+		s2.Jobs[r.Intn(len(s2.Jobs))].Auth = cfggen.Auth{Kind: []string{"satoken", "sacreds"}[mode]}
+	}
+	text := cfggen.Render(s2, cfggen.Style{Indent: 2})
+	want, err := hashOf(text)
+	if err != nil {
+		res.AddStat("wired_configs_rejected_by_loader", 1)
+		return
+	}
+	m := prom.NewConfigManager()
+	m.AddReloadCallbacks(injectLikeCmd)
+	type step struct {
+		name string
+		do   func() error
+	}
+	steps := []step{
+		{"reload", func() error { return m.ReloadFromRaw([]byte(text)) }},
+		{"stop reason set", func() error {
+			return m.UpdateExtraConfig(prom.ExtraConfig{StopScrapeReason: "disk of prometheus is full"})
+		}},
+		{"same stop reason again", func() error {
+			return m.UpdateExtraConfig(prom.ExtraConfig{StopScrapeReason: "disk of prometheus is full"})
+		}},
+		{"stop reason cleared", func() error { return m.UpdateExtraConfig(prom.ExtraConfig{}) }},
+		{"reload of the same content", func() error { return m.ReloadFromRaw([]byte(text)) }},
+		{"stop reason set after the second reload", func() error { return m.UpdateExtraConfig(prom.ExtraConfig{StopScrapeReason: "x"}) }},
+	}
+	for _, st := range steps {
+		if err := st.do(); err != nil {
+			res.Violate("C16/wired/step-fails", "%s: %v", st.name, err)
+			return
+		}
+		res.Execs++
+		res.AddStat("wired_in_process_hashes", 1)
+		if got := m.ConfigInfo().ConfigHash; got != want {
+			res.Violate("C16/wired/hash-changes-without-content-change", "manager with an in-place rewriting reload callback (as cmd/kvass registers), after %q: hash %s, the content hashes to %s", st.name, got, want)
+			if res.Witness == nil {
+				res.Witness = map[string]interface{}{"kind": "wired in-process", "config": text, "step": st.name}
+			}
+			break
+		}
+	}
+	// the real sidecar process with --inject.kubernetes-sa-path
+	if idx%16 != 0 {
+		return
+	}
+	bin := filepath.Join(os.Getenv("VERIF_ROOT"), "bin", "kvass")
+	if _, err := os.Stat(bin); err != nil {
+		res.Inconcl = "kvass binary not built: " + err.Error()
+		return
+	}
+	var tsdb int64
+	fake := httptest.NewServer(http.HandlerFunc(func(rw http.ResponseWriter, rq *http.Request) {
+		rw.Header().Set("Content-Type", "application/json")
+		if strings.HasSuffix(rq.URL.Path, "/status/tsdb") {
+			atomic.AddInt64(&tsdb, 1)
+			io.WriteString(rw, `{"status":"success","data":{"headStats":{"numSeries":0}}}`)
+			return
+		}
+		io.WriteString(rw, `{"status":"success"}`)
+	}))
+	defer fake.Close()
+	dir := filepath.Join(w.Scratch, fmt.Sprintf("c16-real-%d", idx))
+	defer os.RemoveAll(dir)
+	rs, err := e3.StartRealSidecar(bin, dir, fake.URL, func() int64 { return atomic.LoadInt64(&tsdb) }, "--inject.kubernetes-sa-path=/custom/sa")
+	if err != nil {
+		res.Inconcl = "real sidecar: " + err.Error()
+		return
+	}
+	defer rs.Kill()
+	post := func(path string, body interface{}) error {
+		b, _ := json.Marshal(body)
+		resp, err := http.Post(rs.API()+path, "application/json", bytes.NewReader(b))
+		if err != nil {
+			return err
+		}
+		defer resp.Body.Close()
+		out, _ := io.ReadAll(resp.Body)
+		if resp.StatusCode != 200 || !strings.Contains(string(out), `"success"`) {
+			return fmt.Errorf("code %d: %s", resp.StatusCode, clipS(string(out), 300))
+		}
+		return nil
+	}
+	hash := func() (string, error) {
+		resp, err := http.Get(rs.API() + "/api/v1/shard/runtimeinfo/")
+		if err != nil {
+			return "", err
+		}
+		defer resp.Body.Close()
+		var out struct {
+			Data shard.RuntimeInfo `json:"data"`
+		}
+		if err := json.NewDecoder(resp.Body).Decode(&out); err != nil {
+			return "", err
+		}
+		return out.Data.ConfigHash, nil
+	}
+	rsteps := []step{
+		{"configuration pushed", func() error { return post("/api/v1/status/config/", &shard.UpdateConfigRequest{RawContent: text}) }},
+		{"stop reason set", func() error {
+			return post("/api/v1/status/extra_config/", &prom.ExtraConfig{StopScrapeReason: "disk of prometheus is full"})
+		}},
+		{"stop reason cleared", func() error { return post("/api/v1/status/extra_config/", &prom.ExtraConfig{}) }},
+		{"same configuration pushed again", func() error { return post("/api/v1/status/config/", &shard.UpdateConfigRequest{RawContent: text}) }},
+		{"stop reason set again", func() error { return post("/api/v1/status/extra_config/", &prom.ExtraConfig{StopScrapeReason: "x"}) }},
+	}
+	for _, st := range rsteps {
+		if err := st.do(); err != nil {
+			res.Inconcl = fmt.Sprintf("real sidecar, %s: %v", st.name, err)
+			return
+		}
+		got, err := hash()
+		if err != nil {
+			res.Inconcl = "real sidecar runtimeinfo: " + err.Error()
+			return
+		}
+		res.Execs++
+		res.AddStat("real_sidecar_process_hashes", 1)
+		if got != want {
+			res.Violate("C16/real-sidecar/hash-differs-from-content-hash", "real `kvass sidecar --inject.kubernetes-sa-path=...`, after %q: runtimeinfo reports hash %s; the coordinator hashes the same content to %s, so the shard is reported out of sync although it runs the coordinator's configuration", st.name, got, want)
+			if res.Witness == nil {
+				res.Witness = map[string]interface{}{"kind": "real sidecar process", "config": text, "step": st.name}
+			}
+			return
+		}
+	}
 }
 
 // generic strips the job position so that findings are keyed by the kind of setting.
